@@ -245,6 +245,9 @@ class Interp:
             for v in s["vars"]:
                 if "init" in v:
                     val = self.expr(f, v["init"], env, depth)
+                    if type(val) is dict and "__deref__" not in val and str(v.get("ty", "")) in (
+                            "char *", "unsigned char *", "int *") and all(isinstance(k_, int) for k_ in val):
+                        val = ArrPtr(val, 0)          # char *d = buf;  (an array decays to a pointer)
                     env[v["name"]] = _wrap(val, v.get("ty"))
                 elif "arr_n" in v:
                     # a static array starts out zero (its first use); an automatic one undefined
